@@ -67,10 +67,43 @@ func init() {
 				if fn == nil {
 					return
 				}
-				// every append to the result appends a fresh &ProofD{} / &ProofU{} under the corresponding non-nil test
+				// every append to the result appends a fresh &ProofD{} / &ProofU{} under the corresponding non-nil test,
+				// directly or as the result of a helper that classifies one element
 				n := 0
 				ok := true
 				var notes []string
+				guardedBy := func(b *ssa.BasicBlock, want string) bool {
+					for _, a := range controllingConds(b) {
+						a = normAtom(a)
+						if bo, isB := a.V.(*ssa.BinOp); isB && desc(bo.X) == want && isNilConst(bo.Y) {
+							if (bo.Op.String() == "!=" && a.Want == True) || (bo.Op.String() == "==" && a.Want == False) {
+								return true
+							}
+						}
+					}
+					return false
+				}
+				// classified: v is a fresh proof object whose discriminating field is known non-nil at block b
+				classified := func(v ssa.Value, b *ssa.BasicBlock) (string, bool) {
+					if mi, isMI := v.(*ssa.MakeInterface); isMI {
+						v = mi.X
+					}
+					d := desc(v)
+					var want string
+					switch d {
+					case "new:gabi.ProofD":
+						want = "new:gabi.ProofD.A"
+					case "new:gabi.ProofU":
+						want = "new:gabi.ProofU.U"
+					default:
+						return "appends " + d, false
+					}
+					if !guardedBy(b, want) {
+						return "append of " + d + " not guarded by " + want + " != nil", false
+					}
+					return d, true
+				}
+				kinds := map[string]bool{}
 				allInstrs(fn, func(i ssa.Instruction) {
 					c, isC := i.(*ssa.Call)
 					if !isC || !isCallTo(c, "builtin:append") {
@@ -81,32 +114,78 @@ func init() {
 						return
 					}
 					n++
-					var want string
-					switch tail[0].D {
-					case "new:gabi.ProofD":
-						want = "new:gabi.ProofD.A"
-					case "new:gabi.ProofU":
-						want = "new:gabi.ProofU.U"
-					default:
-						ok = false
-						notes = append(notes, "appends "+tail[0].D)
-						return
-					}
-					guarded := false
-					for _, a := range controllingConds(c.Block()) {
-						a = normAtom(a)
-						if b, isB := a.V.(*ssa.BinOp); isB && desc(b.X) == want && isNilConst(b.Y) {
-							if (b.Op.String() == "!=" && a.Want == True) || (b.Op.String() == "==" && a.Want == False) {
-								guarded = true
+					if ex, isEx := tail[0].V.(*ssa.Extract); isEx && ex.Index == 0 {
+						// proof, err := helper(raw): the append needs err == nil, and every return of the helper either
+						// fails or yields a classified object
+						hc, _ := ex.Tuple.(*ssa.Call)
+						var g *ssa.Function
+						if hc != nil {
+							g = hc.Call.StaticCallee()
+						}
+						if g == nil || g.Blocks == nil || g.Pkg != fn.Pkg || g.Signature.Results().Len() != 2 {
+							ok = false
+							notes = append(notes, "appends "+tail[0].D)
+							return
+						}
+						errOK := false
+						for _, a := range controllingConds(c.Block()) {
+							a = normAtom(a)
+							if bo, isB := a.V.(*ssa.BinOp); isB && isNilConst(bo.Y) {
+								if e2, isE := bo.X.(*ssa.Extract); isE && e2.Tuple == ex.Tuple && e2.Index == 1 {
+									if (bo.Op.String() == "==" && a.Want == True) || (bo.Op.String() == "!=" && a.Want == False) {
+										errOK = true
+									}
+								}
 							}
 						}
+						if !errOK {
+							ok = false
+							notes = append(notes, "result of "+FuncKey(g)+" appended without checking its error")
+						}
+						for _, b := range g.Blocks {
+							ret, isR := b.Instrs[len(b.Instrs)-1].(*ssa.Return)
+							if !isR {
+								continue
+							}
+							if e := ret.Results[1]; !isNilConst(e) {
+								// a failing return (the caller checks the error), if the error is known to be one
+								nonNil := false
+								switch e.(type) {
+								case *ssa.Call, *ssa.MakeInterface:
+									nonNil = true
+								}
+								for _, a := range controllingConds(b) {
+									a = normAtom(a)
+									if bo, isB := a.V.(*ssa.BinOp); isB && bo.X == e && isNilConst(bo.Y) {
+										if (bo.Op.String() == "!=" && a.Want == True) || (bo.Op.String() == "==" && a.Want == False) {
+											nonNil = true
+										}
+									}
+								}
+								if nonNil {
+									continue
+								}
+							}
+							k, good := classified(ret.Results[0], b)
+							if !good {
+								ok = false
+								notes = append(notes, FuncKey(g)+": "+k)
+							} else {
+								kinds[k] = true
+							}
+						}
+						return
 					}
-					if !guarded {
+					k, good := classified(tail[0].V, c.Block())
+					if !good {
 						ok = false
-						notes = append(notes, "append of "+tail[0].D+" not guarded by "+want+" != nil")
+						notes = append(notes, k)
+					} else {
+						kinds[k] = true
 					}
 				})
-				R.decide("C08.e", FuncKey(fn)+":elements", "each decoded element is a fresh proof object appended only when its discriminating field is present", ok && n == 2, strings.Join(notes, "; ")+fmt.Sprintf(" (%d appends)", n), P.Pos(fn.Pos()))
+				ok = ok && n >= 1 && kinds["new:gabi.ProofD"] && kinds["new:gabi.ProofU"]
+				R.decide("C08.e", FuncKey(fn)+":elements", "each decoded element is a fresh proof object appended only when its discriminating field is present", ok, strings.Join(notes, "; ")+fmt.Sprintf(" (%d appends)", n), P.Pos(fn.Pos()))
 				mp(P, R, "C08.e", FuncKey(fn)+":unknown-rejected", "a nil error is returned only after every element was classified (unknown => error)", fn, AcceptNilErr(0), &MustPass{Instr: func(f *ssa.Function, i ssa.Instruction) bool {
 						st, isSt := i.(*ssa.Store)
 						return isSt && desc(st.Addr) == "arg#0"
